@@ -454,6 +454,13 @@ static bool can_remove_braces(Chunk *bopen)
                return(false);
             }
 
+            if (  pc->TestFlags(PCF_VAR_DEF)
+               && !language_is_set(lang_flag_e::LANG_CPP))
+            {
+               // outside C++ a definition is not a statement: it needs its block
+               return(false);
+            }
+
             if (  pc->IsSemicolon()
                || pc->Is(CT_IF)
                || pc->Is(CT_ELSEIF)
@@ -624,6 +631,15 @@ static void examine_brace(Chunk *bopen)
             if (pc->Is(CT_ELSE))
             {
                LOG_FMT(LBRDEL, "%s(%d):  bailed on '%s' on line %zu\n",
+                       __func__, __LINE__, pc->Text(), pc->GetOrigLine());
+               return;
+            }
+
+            if (  pc->TestFlags(PCF_VAR_DEF)
+               && !language_is_set(lang_flag_e::LANG_CPP))
+            {
+               // outside C++ a definition is not a statement: it needs its block
+               LOG_FMT(LBRDEL, "%s(%d):  bailed on the definition of '%s' on line %zu\n",
                        __func__, __LINE__, pc->Text(), pc->GetOrigLine());
                return;
             }
